@@ -377,12 +377,31 @@ def perform_cached_doit(
     h = get_readable_hash(unevaluated_expr)
     filename = cache_directory / f"{h}.pkl"
     if filename.exists():
-        with open(filename, "rb") as f:
-            return pickle.load(f)  # noqa: S301
+        cached_expr = _load_cached_expression(filename, unevaluated_expr)
+        if cached_expr is not None:
+            return cached_expr
     _LOGGER.warning(
         f"Cached expression file {filename} not found, performing doit()..."
     )
     unfolded_expr = unevaluated_expr.doit()
     with open(filename, "wb") as f:
-        pickle.dump(unfolded_expr, f)
+        pickle.dump((unevaluated_expr, unfolded_expr), f)
     return unfolded_expr
+
+
+def _load_cached_expression(filename: Path, key_expr: sp.Expr) -> sp.Expr | None:
+    """Load a cached expression, but only if it was stored for the same key.
+
+    The hash in the file name is not unique for an expression (for instance, symbol
+    assumptions are not printed). The cache file therefore contains the original
+    expression as well and :code:`None` is returned if it is not equal to
+    :code:`key_expr`.
+    """
+    with open(filename, "rb") as f:
+        cached = pickle.load(f)  # noqa: S301
+    if not isinstance(cached, tuple) or len(cached) != 2:  # noqa: PLR2004
+        return None
+    stored_key, stored_expr = cached
+    if stored_key != key_expr:
+        return None
+    return stored_expr
